@@ -323,7 +323,7 @@ func (propC06) Execute(pp any, x *X) *Violation {
 
 func (propC06) Describe() PropDoc {
 	return PropDoc{
-		Rule: "one run = one lossy Encode (Method 0-6, passes, TargetSize/TargetPSNR, segments, partitions, sharp YUV, sizes not multiples of 16; 55 % tall enough for the row-pipelined encoder) under a drawn worker count (30 % serial), schedule policy and pool behaviour; the encoder's reconstruction planes (verif hook) are compared, over the visible area, with this package's decoder before deblocking (second hook), with the x/image decoder before deblocking, and - when the emitted stream has the loop filter off - with the planes returned by webp.Decode. distinct = distinct (operation descriptor, explored-world trace hash).",
+		Rule: "one run = one lossy Encode (Method 0-6, passes, TargetSize/TargetPSNR, segments, partitions, sharp YUV, sizes not multiples of 16; 55 % tall enough for the row-pipelined encoder; 8 % rate-control cases with 2-4 segments, 2-10 passes and a target near what the picture needs; 2 % large uniform / patch / hole pictures) under a drawn worker count (30 % serial), schedule policy and pool behaviour; the encoder's reconstruction planes (verif hook) are compared, over the visible area, with this package's decoder before deblocking (second hook), with the x/image decoder before deblocking, and - when the emitted stream has the loop filter off - with the planes returned by webp.Decode. distinct = distinct (operation descriptor, explored-world trace hash).",
 		Assumptions: []string{
 			"the hook returns the planes the encoder holds at the end of EncodeFrame, which are the prediction reference it used (reconstruction is written back over the source planes)",
 			"sampling over images/options/schedules: a clean batch is evidence, not proof",
